@@ -308,3 +308,35 @@ def c_compound_eq_foreign(h):
     c.attrs["inputvars"], c.attrs["outputvars"] = PList([], h.ctx), PList([], h.ctx)
     out = h.call(h.method(c, "__eq__"), [u.nested("n", 1)])
     h.check("C14.compound_eq.foreign_is_valueerror", out.kind == "raise" and out.exc_is(h.I, ValueError), "%r" % (out,))
+
+
+@contract("NestedPolyhedra.__init__", ["C17", "C14"], ["pacti.contracts.polyhedral_iocontract:NestedPolyhedra.__init__"], "U", bound="delegation to NestedTermList.__init__ (its contract: above), 1-2 alternatives, both values of the flag", assumes=["contract of NestedTermList.__init__ (proved above)"], covers=["return"])
+def c_nested_polyhedra_init(h):
+    u = UC(h)
+    NP = h.I.load_module("pacti.contracts.polyhedral_iocontract").ns["NestedPolyhedra"]
+    n = _n(h, "n", 1, 2)
+    force = h.ctx.choose(2, "force") == 0
+    alts = u.alts("A", n)
+    pl = PList(list(alts), h.ctx)
+    seen = []
+
+    def base_init(I, args, kwargs):
+        seen.append((args, kwargs))
+        args[0].attrs["nested_termlist"] = PList(list(args[1].items), h.ctx)
+        return None
+
+    h.I.stubs[CMP + ":NestedTermList.__init__"] = base_init
+    out = h.call(NP, [pl, force])
+    h.check("C14.nested_polyhedra_init.no_exception", out.kind == "return", "raised %s at %s" % (out.exc_name, out.where))
+    if out.kind != "return":
+        return
+    h.cover("return")
+    ok = len(seen) == 1 and len(seen[0][0]) + len(seen[0][1]) == 3
+    h.check("C17.nested_polyhedra_init.delegates_once", ok, "%d calls of the base constructor" % len(seen))
+    if ok:
+        args, kwargs = seen[0]
+        lst = args[1] if len(args) > 1 else kwargs.get("nested_termlist")
+        flg = args[2] if len(args) > 2 else kwargs.get("force_empty_intersection")
+        h.check("C17.nested_polyhedra_init.same_alternatives", lst is pl or (isinstance(lst, PList) and lst.items == alts), "another list is handed to the base constructor")
+        h.check("C17.nested_polyhedra_init.same_disjointness_flag", flg is force, "the disjointness flag is not passed on unchanged (%r for %r)" % (flg, force))
+    h.frame_ok(out, "C13.frame")
